@@ -92,9 +92,12 @@ enum RK {
     /// not authentic (broken MIC or foreign keys), MACPayload anywhere from 60 octets up to the maximum of
     /// the plan's default RX2 data rate (RP002 table, the one C05 and C12 read): not oversized either
     WithinLimitBadMic,
+    /// not authentic, MACPayload of 231..250 octets, heard in an RX1 window that runs at a rate whose limit
+    /// is 250 octets (legal in length there: not oversized)
+    LongInFastRx1,
 }
 
-const RKS: [RK; 13] = [RK::Random, RK::BitFlip, RK::OtherSession, RK::OtherAddr, RK::Replay, RK::Stale, RK::FarFuture, RK::Reflected, RK::JoinAcceptWhileJoined, RK::Oversize, RK::Truncated, RK::ExactMaxBadMic, RK::WithinLimitBadMic];
+const RKS: [RK; 14] = [RK::Random, RK::BitFlip, RK::OtherSession, RK::OtherAddr, RK::Replay, RK::Stale, RK::FarFuture, RK::Reflected, RK::JoinAcceptWhileJoined, RK::Oversize, RK::Truncated, RK::ExactMaxBadMic, RK::WithinLimitBadMic, RK::LongInFastRx1];
 
 struct Step {
     data: Vec<u8>,
@@ -191,6 +194,7 @@ fn data_twins(front: Front, reg: Reg, flip_bit: Option<usize>, rng: &mut Prng, c
         *last = Some(*fdown);
         *fdown
     };
+    let mut rx1_moved = false;
     // something to lose
     if !adr_mode && rng.chance(2, 3) {
         let (lo, hi) = reg.inner_band();
@@ -204,6 +208,7 @@ fn data_twins(front: Front, reg: Reg, flip_bit: Option<usize>, rng: &mut Prng, c
                 col.event("pending_rx1_offset");
             }
             cmds.extend(rx_param_setup_req((off << 4) | reg.rx2_default().1, f));
+            rx1_moved = true;
         }
         if !reg.fixed() && rng.bool() {
             cmds.extend(dl_channel_req(0, f));
@@ -264,6 +269,11 @@ fn data_twins(front: Front, reg: Reg, flip_bit: Option<usize>, rng: &mut Prng, c
         }
         // the payload limit of the RX2 rate is the same in every edition only for these plans
         if kind == RK::ExactMaxBadMic && !matches!(reg, Reg::EU868 | Reg::EU433 | Reg::IN865) {
+            kind = RK::Random;
+        }
+        // an RX1 window at a rate that takes 250 octets: the uplink rate (no ADR back-off on the way: not in ADR mode) with the default offset
+        let fast_rx1 = !adr_mode && !rx1_moved && matches!(reg.rx1_dr(dr as u8, 0).as_slice(), [d] if crate::c05::max_mac_payload(reg, *d) == Some(250));
+        if kind == RK::LongInFastRx1 && !fast_rx1 {
             kind = RK::Random;
         }
         // rejected frame (some kinds need the authentic frame delivered first)
@@ -340,6 +350,19 @@ fn data_twins(front: Front, reg: Reg, flip_bit: Option<usize>, rng: &mut Prng, c
                     other.downlink(&Down { fcnt: n_auth + 1, port: Some(4), payload: &rng.bytes(len - 8), confirmed: rng.bool(), ..Default::default() })
                 }
             }
+            RK::LongInFastRx1 => {
+                let len = rng.range(231, 250) as usize;
+                col.event("inserted_long_frames_in_fast_rx1");
+                if rng.bool() {
+                    let mut v = net.downlink(&Down { fcnt: n_auth + 1, port: Some(4), payload: &rng.bytes(len - 8), confirmed: rng.bool(), ..Default::default() });
+                    let l = v.len();
+                    v[l - 1 - rng.below(4) as usize] ^= 0x5A;
+                    v
+                } else {
+                    let other = Net { nwk: rng.arr(), app: rng.arr(), addr: if rng.bool() { net.addr } else { rng.next_u32() } };
+                    other.downlink(&Down { fcnt: n_auth + 1, port: Some(4), payload: &rng.bytes(len - 8), confirmed: rng.bool(), ..Default::default() })
+                }
+            }
             RK::FarFuture => net.downlink(&Down { fcnt: n_auth.saturating_add(16_385 + rng.below(30_000) as u32), port: Some(4), payload: &[4], confirmed: true, f_opts: &rx_timing_setup_req(5), ..Default::default() }),
             RK::Reflected => vec![], // filled at run time with B's own uplink of this transaction
             RK::JoinAcceptWhileJoined => {
@@ -376,6 +399,10 @@ fn data_twins(front: Front, reg: Reg, flip_bit: Option<usize>, rng: &mut Prng, c
         if kind == RK::WithinLimitBadMic {
             // the windows that run at the RX2 rate: RX2 itself and, for a Class C device, the gaps
             pick = if front == Front::AsyncC && rng.bool() { 3 + rng.below(2) } else { 1 };
+        }
+        if kind == RK::LongInFastRx1 {
+            // RX1 only (RX2 and the gaps run at a slower rate), alone or followed by an authentic frame
+            pick = if rng.bool() { 0 } else { 2 };
         }
         if kind == RK::ExactMaxBadMic {
             // RX2 (its rate is the plan's default here), optionally followed by nothing: twin A's
@@ -434,7 +461,7 @@ fn data_twins(front: Front, reg: Reg, flip_bit: Option<usize>, rng: &mut Prng, c
             }
         };
         col.event(match kind {
-            RK::Random | RK::Truncated | RK::ExactMaxBadMic | RK::WithinLimitBadMic => "inserted_random",
+            RK::Random | RK::Truncated | RK::ExactMaxBadMic | RK::WithinLimitBadMic | RK::LongInFastRx1 => "inserted_random",
             RK::BitFlip => "inserted_bitflip",
             RK::Replay | RK::Stale | RK::FarFuture => "inserted_replay",
             RK::OtherSession | RK::JoinAcceptWhileJoined => "inserted_other_session",
